@@ -25,6 +25,8 @@ type TraceDB struct {
 	calls   int
 	Kinds   map[string]int
 	FailAt  map[int]bool // fail the k-th storage call (1-based)
+	// FailKindNth: fail the n-th call (1-based) of the given kind (e.g. "BatchWrite": 2)
+	FailKindNth map[string]int
 	FailLog []string
 	Reads   int                // Get + Has calls (C11)
 	OnCall  func(kind string) // called outside the lock before the call is carried out
@@ -50,12 +52,23 @@ func (t *TraceDB) tick(what string) error {
 	if what == "Get" || what == "Has" {
 		t.Reads++
 	}
+	if n, ok := t.FailKindNth[what]; ok && t.Kinds[what] == n {
+		t.FailLog = append(t.FailLog, fmt.Sprintf("%d:%s", t.calls, what))
+		return fmt.Errorf("%w at call %d (%s #%d)", ErrInjected, t.calls, what, n)
+	}
 	if t.FailAt != nil && t.FailAt[t.calls] {
 		t.FailLog = append(t.FailLog, fmt.Sprintf("%d:%s", t.calls, what))
 		return fmt.Errorf("%w at call %d (%s)", ErrInjected, t.calls, what)
 	}
 	return nil
 }
+// KindCount returns the number of calls of one kind (safe while other goroutines use the store).
+func (t *TraceDB) KindCount(kind string) int {
+	t.mu.Lock()
+	defer t.mu.Unlock()
+	return t.Kinds[kind]
+}
+
 func (t *TraceDB) Calls() int { t.mu.Lock(); defer t.mu.Unlock(); return t.calls }
 func (t *TraceDB) ResetCounters() {
 	t.mu.Lock()
